@@ -39,7 +39,9 @@ def owner(what, cfg, calls=0):
         return "C04"
     if w.startswith(("translation missing", "tree has a cycle", "ALT node as alternative")):
         return "C03"
-    if w.startswith(("denoted", "more denoted", "ALT nodes with one_parse", "NIL node", "ERROR node", "TERM attribute", "NULL child")):
+    if w.startswith(("ALT nodes with one_parse", "denoted trees with one_parse")):
+        return "C02"      # structure of a one-parse result, whatever the cost flag
+    if w.startswith(("denoted", "more denoted", "NIL node", "ERROR node", "TERM attribute", "NULL child")):
         if cost:
             return "C04"
         return "C02" if one else "C03"
@@ -84,7 +86,7 @@ def blocks_from_vector(vec, configs, codemap="ascii", define_only=False, mems=(0
         base = code
         code = lambda k: tokcode.get(k, base(k))
     else:
-        terms = sorted({s for r in vec["rules"] for s in r["r"] if 0 < s < 10} | set(vec.get("terms", [1, 2])))
+        terms = sorted({s for r in vec["rules"] for s in r["r"] if is_term_name(s)} | set(vec.get("terms", [1, 2])))
         for t in terms:
             lines.append("T %s %d" % (tname(t), code(t)))
     for r in vec["rules"]:
@@ -261,7 +263,7 @@ def run_trace_family(res, scratch, tag, cfg_text, matrix, builds, props, libs=("
                 vec = vecs.get(r["g"])
                 if vec is None:
                     continue
-                terms = sorted({s for rl in vec["rules"] for s in rl["r"] if 0 < s < 10} | {1, 2})
+                terms = sorted({s for rl in vec["rules"] for s in rl["r"] if is_term_name(s)} | {1, 2})
                 c2n = {code(k): k for k in terms}
                 try:
                     trees = [parse_canon(s, c2n) for s in r["trees"]]
